@@ -132,6 +132,7 @@ def run_scratch(ids, checks=None):
                 detail = [l for l in out.splitlines() if l.startswith("violation:")]
                 herr = [l for l in out.splitlines() if l.startswith("HARNESS-ERROR")]
                 rec[p] = dict(exit=rc, caught=(rc == 1 and bool(viol)), violations=detail[:4], harness_error=herr[:2], wall_s=round(time.time() - t0, 1), tree="scratch worktree of /repo HEAD + patch (VERIF_REPO)")
+                print(i, p, "exit", rc, "CAUGHT" if (rc == 1 and viol) else "missed", (detail[:1] or herr[:1] or [""])[0][:200], "[scratch]", flush=True)
                 for k, v in enumerate(viol):
                     path = v.split("replay=")[1].strip()
                     if os.path.exists(path):
@@ -144,7 +145,6 @@ def run_scratch(ids, checks=None):
                 old.setdefault("checks", {}).update(rec)
                 old["at"] = time.strftime("%Y-%m-%d %H:%M:%S")
                 json.dump(old, open(rp, "w"), indent=1)
-                print(i, p, "exit", rc, "CAUGHT" if (rc == 1 and viol) else "missed", (detail[:1] or herr[:1] or [""])[0][:200], "[scratch]")
         finally:
             sh(["git", "-C", REPO, "worktree", "remove", "--force", wt])
             shutil.rmtree(wt, ignore_errors=True)
